@@ -28,8 +28,12 @@ def gen_str(rng, maxlen=6):
 
 def mutate_str(rng, s):
     """one-point mutation of a string"""
-    ops = ['case', 'drop', 'add', 'sub', 'nl', 'dup']
+    ops = ['case', 'drop', 'add', 'sub', 'nl', 'dup', 'nlmid']
     op = pick(rng, ops)
+    if op == 'nlmid' and s:
+        # a line break in place of one character / between two characters (where a `.` of a pattern would have to match it)
+        i = rng.randrange(len(s))
+        return s[:i] + '\n' + s[i + (1 if rng.random() < 0.6 else 0):]
     if op == 'case' and s:
         t = s.swapcase()
         if t != s:
